@@ -142,6 +142,11 @@ func (d *indexData) Search(ctx context.Context, q query.Q, opts *zoekt.SearchOpt
 	opts = &copyOpts
 	opts.SetDefaults()
 
+	// The number of context lines is whatever the client sent. Negative means
+	// none; more lines than a file can have add nothing, but would wrap the
+	// line arithmetic of the content provider.
+	opts.NumContextLines = min(max(opts.NumContextLines, 0), 1<<30)
+
 	var res zoekt.SearchResult
 	if len(d.fileNameIndex) == 0 {
 		return &res, nil
